@@ -1124,6 +1124,12 @@ class Engine(object):
     else:
       prevented.difference_update(row_ids)
 
+  def prevent_dependent_trigger_recalc(self, node, row_ids):
+    # Prevent recalculation of trigger formulas that list the given node among their recalcDeps.
+    for edge in self.dep_graph.get_dependent_edges(node):
+      if isinstance(edge.relation, SingleRowsIdentityRelation):
+        self.prevent_recalc(edge.out_node, row_ids, should_prevent=True)
+
   def rebuild_usercode(self):
     """
     Compiles the usercode from the schema, and updates all tables and columns to match.
